@@ -1,4 +1,121 @@
-From Dawn Require Import Label.Model.
-Theorem parse_total : forall s, exists r, parse s = r.
-Proof. intros s; eexists; reflexivity. Qed.
+(** C12 - Labels are canonical, stable identities confined to the project.
+    Statements only; the proofs are in Label/Proofs.v, Proofs_Path.v, Proofs_Record.v. *)
+From Dawn Require Import Base.Bytes Label.Model Label.Proofs Label.Proofs_Path Label.Proofs_Record.
+Open Scope N_scope.
+
+(** 1. Every accepted label that has a name or has no kind re-parses, from its printed form, to itself. *)
+Theorem parse_print_roundtrip : forall s l,
+  parse s = Some l -> (l_name l <> [] \/ l_kind l = []) -> parse (to_string l) = Some l.
+Proof. exact parse_print_roundtrip_proof. Qed.
+Print Assumptions parse_print_roundtrip.
+
+(** 2. Printing is canonical: two such labels print equal only if they are equal. *)
+Theorem print_canonical : forall s1 s2 l1 l2,
+  parse s1 = Some l1 -> parse s2 = Some l2 ->
+  (l_name l1 <> [] \/ l_kind l1 = []) -> (l_name l2 <> [] \/ l_kind l2 = []) ->
+  to_string l1 = to_string l2 -> l1 = l2.
+Proof. exact print_canonical_proof. Qed.
+Print Assumptions print_canonical.
+
+(** 3. The same after resolving against ANY package string [pkg] for which RelativeTo succeeds.
+    No cleanliness hypothesis on [pkg] is needed (the unrestricted statement was first tested by
+    vm_compute over all strings of length <= 6 on {a . / : @} and 14 packages incl. "/", ":", "a//a",
+    then proved): a non-absolute label has no project and Join cleans its result. *)
+Theorem relative_roundtrip : forall s pkg l r,
+  parse s = Some l -> relative_to l pkg = Some r ->
+  (l_name r <> [] \/ l_kind r = []) -> parse (to_string r) = Some r.
+Proof. exact relative_roundtrip_proof. Qed.
+Print Assumptions relative_roundtrip.
+
+(** 4. An accepted source / generated-file path has no ".." component: joined under the project
+    root it stays inside it.  ([rooted pkg] is the precondition under which Go's [pkg[2:]] is defined;
+    the proof does not use it.) *)
+Theorem source_confined : forall pkg sp q,
+  rooted pkg = true -> repo_source_path pkg sp = Some q -> ~ In dotdot (split_on c_slash q).
+Proof. exact source_confined_proof. Qed.
+Print Assumptions source_confined.
+
+(** 5. url.PathEscape is injective on byte strings. *)
+Theorem path_escape_injective : forall a b,
+  (forall c, In c a -> c < 256) -> (forall c, In c b -> c < 256) ->
+  path_escape a = path_escape b -> a = b.
+Proof. exact path_escape_injective_proof. Qed.
+Print Assumptions path_escape_injective.
+
+(** 6. Distinct persisted labels have distinct record files.
+    [persisted l] (Proofs_Record.v) :=
+      (l_kind l = [] \/ l_kind l = source_kind) /\ l_project l = [] /\ rooted (l_package l) = true /\
+      l_name l <> [] /\ ~ In c_slash (l_name l) /\
+      (forall c, In c (l_package l) -> c < 256) /\ (forall c, In c (l_name l) -> c < 256).
+    [l_project l = []] because targetInfoPath ignores the project; [l_name l <> []] because the
+    empty name is stored as "BUILD.dawn" (the one stated collision, [build_dawn_collision] below). *)
+Theorem record_path_injective : forall l1 l2,
+  persisted l1 -> persisted l2 -> target_info_path l1 = target_info_path l2 -> l1 = l2.
+Proof. exact record_path_injective_proof. Qed.
+Print Assumptions record_path_injective.
+
+(** ... and the record file name is a single path component. *)
+Theorem path_escape_no_slash : forall s, ~ In c_slash (path_escape s).
+Proof. exact path_escape_no_slash_proof. Qed.
+Print Assumptions path_escape_no_slash.
+
+(** 7. Clean is idempotent; Parse is a total function whose only outcomes are a label or an error. *)
+Theorem clean_idempotent : forall p q, clean p = Some q -> clean q = Some q.
+Proof. exact clean_idempotent_proof. Qed.
+Print Assumptions clean_idempotent.
+
+Theorem parse_total : forall s, parse s = None \/ exists l, parse s = Some l.
+Proof. exact parse_total_proof. Qed.
 Print Assumptions parse_total.
+
+(** * The hypotheses are satisfiable / the exclusions are real *)
+
+(* "k:p//a/b:n" parses with kind k, project p, package //a/b, name n, and round-trips *)
+Example ex_full_label :
+  parse [107;58;112;47;47;97;47;98;58;110] = Some (mkLabel [107] [112] [47;47;97;47;98] [110]) /\
+  to_string (mkLabel [107] [112] [47;47;97;47;98] [110]) = [107;58;112;47;47;97;47;98;58;110].
+Proof. vm_compute. split; reflexivity. Qed.
+
+(* "k://a//b/:n" is accepted with the package cleaned to //a/b; its print is the canonical "k://a/b:n" *)
+Example ex_cleaned :
+  parse [107;58;47;47;97;47;47;98;47;58;110] = Some (mkLabel [107] [] [47;47;97;47;98] [110]) /\
+  to_string (mkLabel [107] [] [47;47;97;47;98] [110]) = [107;58;47;47;97;47;98;58;110].
+Proof. vm_compute. split; reflexivity. Qed.
+
+(* the excluded case is real: "k::" has kind k and no name, prints as "k:" which parses as name-less
+   relative package... i.e. a different label *)
+Example ex_kind_without_name :
+  parse [107;58;58] = Some (mkLabel [107] [] [] []) /\
+  parse (to_string (mkLabel [107] [] [] [])) = Some (mkLabel [] [] [107] []).
+Proof. vm_compute. split; reflexivity. Qed.
+
+(* ":n" relative to "//a/b" is "//a/b:n"; relative to the unclean "//a//b/" as well *)
+Example ex_relative :
+  relative_to (mkLabel [] [] [] [110]) [47;47;97;47;98] = Some (mkLabel [] [] [47;47;97;47;98] [110]) /\
+  relative_to (mkLabel [] [] [] [110]) [47;47;97;47;47;98;47] = Some (mkLabel [] [] [47;47;97;47;98] [110]).
+Proof. vm_compute. split; reflexivity. Qed.
+
+(* package //a: "../b" is accepted as "b", "../../b" is rejected, "/x/../y" is accepted as "/y" *)
+Example ex_source_paths :
+  repo_source_path [47;47;97] [46;46;47;98] = Some [98] /\
+  repo_source_path [47;47;97] [46;46;47;46;46;47;98] = None /\
+  repo_source_path [47;47;97] [47;120;47;46;46;47;121] = Some [47;121] /\
+  split_on c_slash [47;121] = [[]; [121]].
+Proof. vm_compute. repeat split; reflexivity. Qed.
+
+(* //a:x is a persisted label; its record is targets/a%2Fx *)
+Example ex_persisted :
+  persisted (mkLabel [] [] [47;47;97] [120]) /\
+  target_info_path (mkLabel [] [] [47;47;97] [120]) = ([116;97;114;103;101;116;115], [97;37;50;70;120]).
+Proof.
+  split; [|vm_compute; reflexivity].
+  unfold persisted; simpl. repeat split; try (left; reflexivity); try discriminate.
+  - intros [E|[]]; discriminate E.
+  - intros c [<-|[<-|[<-|[]]]]; reflexivity.
+  - intros c [<-|[]]; reflexivity.
+Qed.
+
+(* the stated collision: //a (default target) and //a:BUILD.dawn share a record file *)
+Example build_dawn_collision :
+  target_info_path (mkLabel [] [] [47;47;97] []) = target_info_path (mkLabel [] [] [47;47;97] build_dawn).
+Proof. vm_compute. reflexivity. Qed.
